@@ -92,6 +92,41 @@ pub fn gen_transform(rng: &mut Rng, max_log: u32) -> TransformParams {
     }
 }
 
+/// Turn a random block into one of the shapes random data never has: zero
+/// block, zero half-lanes, zero low or high bytes, constant bytes, a short
+/// shard's layout, a tiny alphabet.
+pub fn structure_block(rng: &mut Rng, b: &mut [u8; 64]) {
+    match rng.below(8) {
+        0 => *b = [0; 64],
+        1 => b[..16].fill(0),
+        2 => b[16..32].fill(0),
+        3 => b[..32].fill(0),
+        4 => b[32..].fill(0),
+        5 => {
+            let v = *rng.pick(&[0u8, 1, 0xff, 0x80]);
+            b.fill(v);
+        }
+        6 => {
+            // like a 2- or 4-byte shard: one or two symbols, rest padding
+            let n = rng.range(1, 2);
+            let (lo, hi) = (b[0], b[32]);
+            let (lo1, hi1) = (b[1], b[33]);
+            *b = [0; 64];
+            b[0] = if rng.chance(1, 4) { 0 } else { lo };
+            b[32] = hi;
+            if n == 2 {
+                b[1] = lo1;
+                b[33] = hi1;
+            }
+        }
+        _ => {
+            for x in b.iter_mut() {
+                *x &= 1;
+            }
+        }
+    }
+}
+
 pub fn gen_transform_input(rng: &mut Rng, p: &TransformParams) -> Vec<[u8; 64]> {
     let mut buf = vec![[0u8; 64]; p.shard_count * p.shard_len_64];
     // mostly uniformly random blocks; in a third of the cases structured ones
@@ -101,35 +136,7 @@ pub fn gen_transform_input(rng: &mut Rng, p: &TransformParams) -> Vec<[u8; 64]> 
     for b in buf.iter_mut() {
         rng.fill(b);
         if structured {
-            match rng.below(8) {
-                0 => *b = [0; 64],
-                1 => b[..16].fill(0),
-                2 => b[16..32].fill(0),
-                3 => b[..32].fill(0),
-                4 => b[32..].fill(0),
-                5 => {
-                    let v = *rng.pick(&[0u8, 1, 0xff, 0x80]);
-                    b.fill(v);
-                }
-                6 => {
-                    // like a 2- or 4-byte shard: one or two symbols, rest padding
-                    let n = rng.range(1, 2);
-                    let (lo, hi) = (b[0], b[32]);
-                    let (lo1, hi1) = (b[1], b[33]);
-                    *b = [0; 64];
-                    b[0] = if rng.chance(1, 4) { 0 } else { lo };
-                    b[32] = hi;
-                    if n == 2 {
-                        b[1] = lo1;
-                        b[33] = hi1;
-                    }
-                }
-                _ => {
-                    for x in b.iter_mut() {
-                        *x &= 1;
-                    }
-                }
-            }
+            structure_block(rng, b);
         }
     }
     if p.inverse {
